@@ -1465,10 +1465,26 @@ impl<'a> Exec<'a> {
                         None => {}
                     }
                 }
-                let over = match fresh {
+                let mut over = match fresh {
                     Some(m) => e_w >= prev_w.saturating_sub(c) + m + 2 * wmax && e_w > 0,
                     None => phys_w + x + wmax <= c,
                 };
+                // An update of a resident key that arrives while the cache is over capacity
+                // (single-threaded cache: the excess is evicted at the start of the operation)
+                // may find its own key among the victims; the value is then admitted as a new
+                // key, with victims of its own. Both the key's old entry and the second set of
+                // victims are legitimate: judge the step under that reading as well.
+                if let (true, Some((uk, uw))) = (over, upd) {
+                    let w_old = self.q_prev.get(uk).map_or(0, |e| weight_of(self.cfg, e.w_val) as u64);
+                    let prev_w_old = prev_w - uw + w_old;
+                    if prev_w_old > c && post.has(uk) {
+                        let (e2, wmax2) = (e_w + w_old, wmax.max(w_old));
+                        if e2 < (prev_w_old - c) + uw + 2 * wmax2 {
+                            over = false;
+                            self.stats.inc("update_of_a_key_evicted_at_the_start_of_the_same_operation");
+                        }
+                    }
+                }
                 if over {
                     let mut ev = removed_other.clone();
                     ev.truncate(12);
